@@ -156,6 +156,14 @@ impl<'a> Sim<'a> {
         let ds = &self.case.dataset;
         let n = ds.n();
         for (j, snap) in hist.iter().enumerate().skip(self.hist_seen) {
+            if !snap.portfolio_value.is_finite() || self.valuations.get(j).map_or(false, |v| !v.0.is_finite()) {
+                // an order sized by a division by an exactly-zero net price (per-share fee == quote)
+                // made money infinite: outside the domain; the run ends here, unjudged
+                self.ctx.bump("skipped_out_of_domain_non_finite_values");
+                self.aborted = true;
+                self.hist_seen = hist.len();
+                return;
+            }
             // j-th update (0-based) performs tick j+1: the clock then shows date min(j+1, n-1)
             let want_date = ds.dates[(j + 1).min(n - 1)];
             let date: i64 = snap.date.into();
